@@ -43,33 +43,45 @@ class Check:
         """A FAILED harness: counterexamples (from concrete playback) are replayed natively, then classified."""
         job = res.job
         only_unwind = all(".unwind" in f["name"] or "recursion" in f["name"] for f in res.failed_checks)
-        cands = [(k, d, v) for (k, d, v) in pbs if k != "cover"]
+        # counterexamples of failed checks first; cover witnesses are tried as well (Kani does not always
+        # print a test for a failed panic check; any input that fails natively is a valid demonstration)
+        cands = [(k, d, v) for (k, d, v) in pbs if k != "cover"] + [(k, d, v) for (k, d, v) in pbs if k == "cover"]
         if not cands:
             self.undecided.append((job.jid, "FAILED but no counterexample could be extracted: "
                                    + "; ".join(f["desc"] for f in res.failed_checks[:4])))
             return
-        seen = set()
+        seen = {}
         reproduced = False
+        k = 0
         for kind, desc, vals in cands:
             key = json.dumps(vals)
             if key in seen:
                 continue
-            seen.add(key)
             outs = {}
             ok = False
+            native_msgs = []
             for rel in (False, True):
                 rc, out = kani.replay(job.crate, job.harness, vals, release=rel)
                 outs["release" if rel else "dev"] = {"rc": rc, "out": out[-2000:]}
                 if rc in (1, 101, 124, 134, 139, -6, -11):
                     ok = True
+                    for line in out.splitlines():
+                        if ": FAILED " in line or ": PANIC " in line:
+                            msg = line.split(": ", 1)[1]
+                            if msg not in native_msgs:
+                                native_msgs.append(msg)
+                    if rc == 124:
+                        native_msgs.append("did not return (watchdog)")
+            seen[key] = ok
             info = describe(job, vals) if describe else {}
             if ok:
                 reproduced = True
                 if self.match_known(job, vals, info):
                     continue
-                path = self.write_replay(job, desc, vals, info, outs, res)
-                self.violations.append((job.jid, path, desc))
-            else:
+                k += 1
+                path = self.write_replay(job, desc, vals, info, outs, res, k)
+                self.violations.append((job.jid, path, "; ".join(native_msgs) or desc))
+            elif kind != "cover":
                 self.notes.append(f"{job.jid}: counterexample for '{desc}' did not reproduce natively: "
                                   f"{outs['dev']['out'][-300:]}")
         if not reproduced:
@@ -84,9 +96,9 @@ class Check:
                 return True
         return False
 
-    def write_replay(self, job, desc, vals, info, outs, res):
+    def write_replay(self, job, desc, vals, info, outs, res, k=1):
         d = kani.ensure_dir(os.path.join(VERIF, "replays", self.pid))
-        path = os.path.join(d, job.jid + ".json")
+        path = os.path.join(d, f"{job.jid}.{k}.json")
         json.dump({
             "property": self.pid, "job": job.jid, "harness": job.harness,
             "crate": os.path.basename(job.crate), "failed_check": desc,
